@@ -57,6 +57,7 @@ def internalActs (cpu : Bool) (ngpus : Nat) (s : State) : List Act :=
 def timeActs (s : State) : List Act :=
   s.requeuers.map Act.requeue ++ s.delayed.map Act.delayedRequeue
   ++ ((List.range s.nRunners).filter (fun r => (s.runners r).timerArmed)).map Act.timerFire
+  ++ (match s.ppc with | .pinging _ r => [Act.pingDone r false] | _ => [])   -- needsReload's 10 s Ping timeout
 
 def succs (v : Variant) (acts : List Act) (s : State) : List State := acts.filterMap (step v s)
 
@@ -99,12 +100,22 @@ def parseEv : List String → Option Ev
     let m ← m.toNat?; let o ← o.toNat?
     let se ← (runTP pSess [se])
     pure (.act (.submit m o se))
+  | ["submitr", m, o, se] => do    -- the requester is the real Server.scheduleRunner: same scheduler action
+    let m ← m.toNat?; let o ← o.toNat?
+    let se ← (runTP pSess [se])
+    pure (.act (.submit m o se))
   | ["done", q] => do pure (.act (.done (← q.toNat?)))
   | ["loaddone", r, ok] => do pure (.act (.loadDone (← r.toNat?) (ok != "0")))
+  | ["ping", r, "2"] => do pure (.act (.setPingBlock (← r.toNat?)))     -- Ping parks until `pingdone`
   | ["ping", r, ok] => do pure (.act (.setPing (← r.toNat?) (ok != "0")))
+  | ["pingdone", r, ok] => do pure (.act (.pingDone (← r.toNat?) (ok != "0")))
   | ["unload", m] => do pure (.act (.explicitUnload (← m.toNat?)))
   | ["advance", _] => some .advance
   | ["failstart", _, _] => some .nop
+  -- environment of the trace that the model leaves free (Fit answers) or does not time (Close)
+  | ["parallel", _] => some .nop
+  | ["gpumem", _] => some .nop
+  | ["closedelay", _] => some .nop
   | _ => none
 
 /-- split a token list on a separator token -/
@@ -137,8 +148,14 @@ def runTrace (v : Variant) (cpu : Bool) (ngpus : Nat) (s0 : State) (steps : List
           -- conformance relation is plain reachability (trace inclusion), not quiescent-state equality.
           -- Only a load in flight holds a mutex for long, so non-quiescent states are admitted only
           -- while some runner's refMu is held by its load goroutine.
-          let loading (s : State) : Bool := (List.range s.nRunners).any (fun r => (s.runners r).refMuHeld)
-          let matching := dedup (all.filter (fun s => showObs s == obs && (loading s || quiescent v cpu ngpus s)))
+          let loading (s : State) : Bool := (List.range s.nRunners).any (fun r => (s.runners r).locked)
+          -- A Close() that takes (fake) time: the expired handler has taken the event and sits in llama.Close(), nothing
+          -- is changed yet (closeCount counts Close calls that RETURNED).  That is the model state cpc = .exp r with
+          -- cExp enabled; everybody who needs loadedMu / refMu waits, so it is not quiescent in the model.
+          let closing (s : State) : Bool := match s.cpc with
+            | .exp r => (s.runners r).isZero && !(s.runners r).locked
+            | _ => false
+          let matching := dedup (all.filter (fun s => showObs s == obs && (loading s || closing s || quiescent v cpu ngpus s)))
           if matching.isEmpty then
             let ex := match quiet.head? with | some s => showObs s | none => "<no quiescent state>"
             let others := ((all.map showObs).eraseDups.take 6)
